@@ -220,6 +220,9 @@ func (c *StructCodec) Read(data []byte, ptr unsafe.Pointer, wt plenccore.WireTyp
 	var offset int
 	for offset < l {
 		wt, index, n := plenccore.ReadTag(data[offset:])
+		if n <= 0 {
+			return 0, fmt.Errorf("corrupt tag in %s", c.rtype.Name())
+		}
 		offset += n
 
 		if index >= len(c.fieldsByIndex) || c.fieldsByIndex[index].codec == nil {
